@@ -184,6 +184,24 @@ var Faults = []Fault{
 	{Name: "intermediate-revoked", Pre: func(w *World) {
 		w.RootCrl.Revoked = append(w.RootCrl.Revoked, w.PKI.Int.X.SerialNumber.Bytes())
 	}, MinLevel: LvlCRL},
+	{Name: "intermediate-revoked-and-the-trusted-bundle-also-lists-it", Pre: func(w *World) {
+		// the relying party's bundle holds the whole chain (root and issuing CA): the shortest path x509 finds ends at the
+		// issuing CA - which the Root CA CRL revokes
+		w.RootCrl.Revoked = append(w.RootCrl.Revoked, w.PKI.Int.X.SerialNumber.Bytes())
+		w.PoolExtra = []*Cert{w.PKI.Int}
+	}, MinLevel: LvlCRL},
+	{Name: "quote-carries-an-expired-edition-of-the-issuing-ca-and-the-trusted-bundle-lists-the-renewed-one", Post: func(w *World) {
+		// the issuing CA certificate IN THE QUOTE expired an hour before the verification time; the relying party's bundle
+		// lists the root and the renewed certificate of that CA (same name, same key): x509 finds a path through the
+		// renewed one, the expired certificate the quote carries is refused all the same, at every level
+		spec := w.PKI.Spec
+		old := MakeCert(CertSpec{CN: w.PKI.Int.X.Subject.CommonName, KeyLabel: spec.Seed + "/int", Serial: serialOr(nil, spec.Seed+"/int-expired-edition"), NotBefore: Wide.NotBefore, NotAfter: w.Times.PckCertChain.Add(-time.Hour).Truncate(time.Second), CA: true, CRLDP: spec.RootCRLDP}, w.PKI.Root)
+		q := w.Q.Clone()
+		q.Chain = ChainPEM(w.Leaf, old, w.PKI.Root)
+		q.FixSizes()
+		w.Raw = q.Encode()
+		w.PoolExtra = []*Cert{w.PKI.Int}
+	}, MinLevel: LvlBase},
 	{Name: "tcb-signer-revoked", Pre: func(w *World) {
 		w.RootCrl.Revoked = append(w.RootCrl.Revoked, w.PKI.TcbSig.X.SerialNumber.Bytes())
 	}, MinLevel: LvlCRL},
